@@ -424,7 +424,10 @@ Section PrintSim.
   (* model side: the PRINT statement on the token stream *)
   Variables (items : list mitem) (ts rest : list token) (i : nat).
   Hypothesis Htrace : enable_tracing s = false.
-  Hypothesis Hskip : skipn i toks = TPrint :: ts ++ rest.
+  (* PRINT or its abbreviation ? *)
+  Variable hd : token.
+  Hypothesis Hhd : hd = TPrint \/ hd = TQuestionMark.
+  Hypothesis Hskip : skipn i toks = hd :: ts ++ rest.
   Hypothesis Hren : IRenders rest items ts.
   Variable d : nat.
   Hypothesis Hd : Nat.eqb d max_nesting = false.
@@ -454,10 +457,10 @@ Section PrintSim.
     rewrite Htrace. cbv iota.
     rewrite (bind_ok _ _ _ _ _ (eq_refl : ret tt (at_idx s i r o) = (Ok tt, at_idx s i r o))).
     erewrite bind_ok by (apply (next_some s toks Htoks); exact H0). cbv iota beta.
-    rewrite print_is_pbody.
-    destruct (pden s items false []) as [[semi text]|er l|pp| |]; (erewrite bind_run by exact Hrun); try reflexivity.
-    unfold push_output, modify. cbn [fst snd].
-    replace (S i + length ts) with (i + 1 + length ts) by lia. reflexivity.
+    destruct Hhd as [->| ->]; rewrite print_is_pbody;
+      (destruct (pden s items false []) as [[semi text]|er l|pp| |]; (erewrite bind_run by exact Hrun); try reflexivity);
+      unfold push_output, modify; cbn [fst snd];
+      replace (S i + length ts) with (i + 1 + length ts) by lia; reflexivity.
   Qed.
 End PrintSim.
 
@@ -521,9 +524,10 @@ Qed.
    record; the model pushes one Print record with the same text (behind any
    warnings); stores and the relation are untouched; the cursor is just past
    the statement.  Or both fail with the same error kind. *)
-Theorem print_statement_simulates s toks items mitems ts rest i p after li st d :
+Theorem print_statement_simulates s toks items mitems ts rest i p after li st d hd :
   fst (cur_tokens s) = Ok toks -> enable_tracing s = false ->
-  skipn i toks = TPrint :: ts ++ rest ->
+  hd = TPrint \/ hd = TQuestionMark ->
+  skipn i toks = hd :: ts ++ rest ->
   tr_items items = Some mitems -> IRenders rest mitems ts ->
   Nat.eqb d max_nesting = false -> S d + idepth mitems < max_nesting ->
   same_store st s ->
@@ -543,8 +547,8 @@ Theorem print_statement_simulates s toks items mitems ts rest i p after li st d 
     | Done _ | NoFuel => False
     end.
 Proof.
-  intros Htoks Htrace Hskip Htr Hren Hd Hdepth Hrel.
-  destruct (model_print s toks Htoks mitems ts rest i Htrace Hskip Hren d Hd Hdepth) as (f0 & Hm).
+  intros Htoks Htrace Hhd Hskip Htr Hren Hd Hdepth Hrel.
+  destruct (model_print s toks Htoks mitems ts rest i Htrace hd Hhd Hskip Hren d Hd Hdepth) as (f0 & Hm).
   exists f0. intros fuel Hf r o.
   destruct (Hm fuel Hf r o) as (i' & r' & o' & HW & Hrun). clear Hm.
   cbn [exec].
